@@ -53,12 +53,52 @@ partial def parseE (j : Json) : Except String E := do
   | [Json.str "not", e] => pure (.not (← parseE e))
   | _ => throw s!"bad ast {j}"
 
-def config (name : String) : Except String (Table × List (List String × Otype)) :=
+def namedConfig (name : String) : Except String (Table × List (List String × Otype)) :=
   match name with
   | "default" => pure (SciVerif.C01.Gen.dflt, SciVerif.C01.Gen.dfltSteps)
   | "strcfg" => pure (SciVerif.C02.Gen.strcfg, SciVerif.C02.Gen.strcfgSteps)
   | "unarycfg" => pure (SciVerif.C02.Gen.unarycfg, SciVerif.C02.Gen.unarycfgSteps)
   | _ => throw s!"unknown configuration {name}"
+
+/-- The operator dict `{n: default[n] for n in names}` (in this order): the rows of the regenerated
+    default table, with the subclass relation and the Add/Sub entries re-indexed. -/
+def subTable (names : List String) : Except String Table := do
+  let base := SciVerif.C01.Gen.dflt
+  let idxs ← names.mapM (fun n => match nameIdx base n with
+    | some i => pure i
+    | none => throw s!"unknown operator {n}")
+  let pos := List.range idxs.length
+  let rows := idxs.filterMap (fun i => base.rows[i]?)
+  let rows' := rows.map (fun r =>
+    { r with isa := pos.filter (fun k => match idxs[k]? with
+        | some old => r.isa.contains old
+        | none => false) })
+  let reidx := fun (o : Option Nat) => match o with
+    | some old => idxs.findIdx? (· == old)
+    | none => none
+  pure ⟨rows', reidx base.addIdx, reidx base.subIdx, base.sign⟩
+
+def parseOtype : String → Except String Otype
+  | "ARGS" => pure .args | "UNARY" => pure .unary | "BINARY" => pure .binary | "TERNARY" => pure .ternary
+  | s => throw s!"bad otype {s}"
+
+/-- `cfg` is a name, or `{"ops": [names], "steps": null | [[[names], otype], …]}` -/
+def config (j : Json) : Except String (Table × List (List String × Otype)) :=
+  match j with
+  | Json.str name => namedConfig name
+  | _ => do
+    let names ← (← getList (← field j "ops")).mapM (fun x => x.getStr?)
+    let tbl ← subTable names
+    let st ← field j "steps"
+    match st with
+    | Json.null => pure (tbl, SciVerif.C01.Gen.dfltSteps)
+    | _ =>
+      let steps ← (← getList st).mapM (fun x => do
+        let a ← getList x
+        match a with
+        | [ns, Json.str ot] => pure ((← (← getList ns).mapM (fun y => y.getStr?)), ← parseOtype ot)
+        | _ => throw "bad step")
+      pure (tbl, steps)
 
 def algOf (name : String) : Except String (AtomAlg Term) :=
   match name with
@@ -68,7 +108,7 @@ def algOf (name : String) : Except String (AtomAlg Term) :=
 
 /-- model on a string -/
 def solveReq (j : Json) : Except String Json := do
-  let (tbl, steps) ← config (← (← field j "cfg").getStr?)
+  let (tbl, steps) ← config (← field j "cfg")
   let alg ← algOf (← (← field j "alg").getStr?)
   let s ← (← field j "s").getStr?
   pure (Json.mkObj [("model", outJson (solve tbl alg steps s.toList))])
@@ -111,7 +151,7 @@ def historyRun (tbl : Table) (alg : AtomAlg Term) (steps : List (List String × 
       ("noreset", outJson rNo.2)] :: historyRun tbl alg steps r.1 rNo.1 rest
 
 def historyReq (j : Json) : Except String Json := do
-  let (tbl, steps) ← config (← (← field j "cfg").getStr?)
+  let (tbl, steps) ← config (← field j "cfg")
   let alg ← algOf (← (← field j "alg").getStr?)
   let exprs ← (← getList (← field j "exprs")).mapM (fun x => x.getStr?)
   pure (Json.arr (historyRun tbl alg steps ⟨[], []⟩ ⟨[], []⟩ exprs).toArray)
